@@ -188,7 +188,6 @@ def evaluate(ctx, binpath, cases, stream, threads, coq=True, known_seen=None):
         q = c["q"]
         im = base[i]
         classes, wellscoped = L.classify(q)
-        classes = classes | L.data_classes(c["ds"], q)      # empty-sum (C01-empty-sum-negative-zero): not compared with the Spec
         case_out = {"ds": c["ds"], "ds_before": c["ds_before"], "ds_update": c["ds_update"], "q": q, "query": c["query"]}
         if not wellscoped:
             continue
@@ -329,7 +328,6 @@ def permutation_stream(ctx, binpath, cases, per_case, name="bgp_permutations"):
     for c, im in zip(pc, outs):
         ctx.count()
         classes, wellscoped = L.classify(c["q"])
-        classes = classes | L.data_classes(c["ds"], c["q"])
         if not wellscoped or "results" not in im:
             continue
         want = pattern_solutions(c["ds"], c["orig"]["q"])
